@@ -13,7 +13,7 @@ WRAP = ["gettimeofday", "timerfd_settime", "read"]
 CLK0 = 1700000000000000
 FLOOR = 100
 C06_CLAUSES = ("early", "once", "spacing", "order", "lost", "armed", "sets", "crash", "format")
-C07_CLAUSES = ("cancel", "cancel-queued-add", "crash", "sets", "format")
+C07_CLAUSES = ("cancel", "cancel-queued-add", "lost", "once", "crash", "sets", "format")   # lost/once: a cancel must not kill or duplicate ANOTHER timer
 
 RUN = re.compile(r"^run\((-?\d+),(-?\d+),(-?\d+),(-?\d+)\)$")
 ARM = re.compile(r"^arm\((-?\d+),(-?\d+)\)$")
